@@ -20,7 +20,8 @@ TRY = ("            try:\n                # this might raise UnknownKeyError or 
 CONT = "                # process other announcements that arrived with the bad one\n                continue\n"
 IMPORT = ("from allmydata.introducer.common import sign_to_foolscap, unsign_from_foolscap,\\\n"
           "     get_tubid_string_from_ann\n")
-CL_STORE = "        self._inbound_announcements[index] = (ann, key_s, time.time())\n"
+
+GENERIC = "            except Exception:\n                # an unsigned, unknown-key-format or otherwise malformed\n                # announcement must not keep us from processing the others\n                # that arrived in the same batch\n                self.log(\"malformed inbound announcement: %s\" % (ann_t,),\n                         parent=lp, level=log.WEIRD, umid=\"gBPmDw\")\n                continue\n"
 
 MUTANTS = [
     # ---- C34.1 verification gate
@@ -58,16 +59,18 @@ MUTANTS = [
     M("forget-on-disconnect", CL, "        self._subscriptions.clear()\n",
       "        self._subscriptions.clear()\n        self._inbound_announcements.clear()\n", "C34.2"),
     # ---- C34.3 exception escape
-    M("badsig-no-longer-caught", CL, "            except BadSignature:\n", "            except UnknownKeyError:\n", "C34.3",
+    # the repaired handler (fix: commit in /repo) catches everything; the original defect and its
+    # relatives return when the generic handler is removed or narrowed
+    M("generic-handler-removed", CL, GENERIC, "", "C34.3"),
+    M("generic-handler-narrowed", CL, "            except Exception:\n                # an unsigned", "            except UnknownKeyError:\n                # an unsigned", "C34.3",
       edits=[(CL, IMPORT, "from allmydata.introducer.common import sign_to_foolscap, unsign_from_foolscap,\\\n"
                           "     get_tubid_string_from_ann, UnknownKeyError\n")]),
-    M("try-removed", CL, TRY, "            ann, key_s = unsign_from_foolscap(ann_t)\n", "C34.3"),
-    M("new-exception-class", CO, "    if not sig_vs.startswith(b\"v0-\"):\n",
+    M("try-removed", CL, TRY + GENERIC, "            ann, key_s = unsign_from_foolscap(ann_t)\n", "C34.3"),
+    M("new-exception-class-with-narrow-handler", CO, "    if not sig_vs.startswith(b\"v0-\"):\n",
       "    if len(msg) > 1000000:\n        raise AnnouncementTooLarge(len(msg))\n    if not sig_vs.startswith(b\"v0-\"):\n", "C34.3",
       edits=[(CO, "class UnknownKeyError(Exception):\n    pass\n",
-              "class UnknownKeyError(Exception):\n    pass\n\n\nclass AnnouncementTooLarge(Exception):\n    pass\n")]),
-    M("prefix-guard-dropped", CO,
-      "    if not sig_vs.startswith(b\"v0-\"):\n        raise UnknownKeyError(\"only v0- signatures recognized\")\n", "", "C34.3"),
+              "class UnknownKeyError(Exception):\n    pass\n\n\nclass AnnouncementTooLarge(Exception):\n    pass\n"),
+             (CL, "            except Exception:\n                # an unsigned", "            except (ValueError, AssertionError):\n                # an unsigned")]),
     # ---- C34.5 handler continues
     M("handler-falls-through", CL, CONT, "", "C34.5"),
     M("handler-returns", CL, CONT, "                return\n", "C34.5"),
